@@ -473,7 +473,7 @@ func (v *AttVerdict) named(method string, it map[string]any, trace bool, pos str
 		return nil, 0, false
 	}
 	if b.HasHeader && bh != b.Hash {
-		v.must(method, "item-blockhash-contradicts-header")
+		v.must(method, "item-blockhash-contradicts-header"+pos)
 		return nil, 0, false
 	}
 	b.ItemHashes[bh] = true
@@ -605,6 +605,7 @@ func (v *AttVerdict) logsElem(method string, res any) {
 		v.must(method, "undecodable")
 		return
 	}
+	seenTx := map[[2]uint64]bool{}
 	for _, x := range arr {
 		it, ok := x.(map[string]any)
 		if !ok {
@@ -621,7 +622,17 @@ func (v *AttVerdict) logsElem(method string, res any) {
 			v.must(method, "undecodable")
 			continue
 		}
-		b, txi, ok := v.named(method, it, false, "")
+		lpos := "-first-of-tx"
+		if num, ok := attQuantity(it["blockNumber"]); ok {
+			if ti, ok := attQuantity(it["transactionIndex"]); ok {
+				k := [2]uint64{num, ti}
+				if seenTx[k] {
+					lpos = "-later-of-tx"
+				}
+				seenTx[k] = true
+			}
+		}
+		b, txi, ok := v.named(method, it, false, lpos)
 		if !ok {
 			continue
 		}
